@@ -245,6 +245,16 @@ fn programme(lay: &Layout, variant: u64) -> Vec<Step> {
     s.push((Ev::Trade { i: 1, t: tick(), px: 130 }, noise("late")));
     s.push((Ev::CmdOpen(vec![OpenReq { x: 2, i: last(2), cid: "z2".into() }]), noise("z")));
     s.push((Ev::Trading(true), Some(AlgoScript { cancels: vec![], opens: vec![OpenReq { x: 2, i: first(2), cid: "y2".into() }] })));
+    // a request that REUSES the client order id of an order the exchange has confirmed open (and of one whose cancel is in flight): once
+    // reported sent, 'the order it opens is from then on shown as in flight' - whatever was tracked under that id before
+    for x in 0..N_EX {
+        s.push((Ev::CmdOpen(vec![OpenReq { x, i: last(x), cid: format!("q{x}") }]), None));
+        s.push((Ev::OrdOpen { i: last(x), cid: format!("q{x}"), t: tick(), filled: 3 }, None));
+        s.push((Ev::CmdOpen(vec![OpenReq { x, i: last(x), cid: format!("q{x}") }]), None));
+        s.push((Ev::OrdOpen { i: last(x), cid: format!("q{x}"), t: tick(), filled: 4 }, None));
+        s.push((Ev::CmdCancel(vec![CancelReq { x, i: last(x), cid: format!("q{x}"), id: Some(order_id_of(&format!("q{x}"))) }]), None));
+        s.push((Ev::Trade { i: last(x), t: tick(), px: 125 }, Some(AlgoScript { cancels: vec![], opens: vec![OpenReq { x, i: last(x), cid: format!("q{x}") }] })));
+    }
     s
 }
 
